@@ -43,7 +43,38 @@ def oracle(c, outs):
     return None
 
 
+def volume(rep, cov, tier, rng):
+    """Volume probe inside the harness: many messages signed into ONE reused, never-cleared buffer (the slice API allows it)
+    and verified, a fresh key every 500 messages; deterministic and randomized. Finds rare-branch failures (hint boundary,
+    high-bits wrap, more than omega hints, stale buffers) that a handful of signatures cannot."""
+    from concurrent.futures import ThreadPoolExecutor
+    per = 16000 if tier == "quick" else 400000
+    shards = 4 if tier == "quick" else 8
+    calls = []
+    for cp in ALL:
+        for sh in range(shards):
+            calls.append(("selfcheck", cp, [rng.randrange(1 << 60), per // shards, 500, 0]))
+        calls.append(("selfcheck", cp, [rng.randrange(1 << 60), per // 8, 500, 1]))
+    with ThreadPoolExecutor(max_workers=16) as ex:
+        res = list(ex.map(lambda c: crate([c])[0], calls))
+    total = 0
+    for cl, r in zip(calls, res):
+        total += cl[2][1]
+        if r is None:
+            rep.violation("signing or verification panicked / did not return during the volume probe (%s)" % cl[1],
+                          {"cases": [{"fn": "selfcheck", "copy": cl[1], "args": [str(a) for a in cl[2]]}]}, True)
+        elif r[0] != 0:
+            rep.violation("the library rejects its own signature: %d of %d messages (%s, %s); first: key seed %s message %s (signed into a reused buffer)"
+                          % (r[0], cl[2][1], cl[1], "randomized" if cl[2][3] else "deterministic", r[2].hex(), r[3].hex()),
+                          {"cases": [{"fn": "selfcheck", "copy": cl[1], "args": [str(a) for a in cl[2]]}],
+                           "first_failure": {"key_seed": r[2].hex(), "message": r[3].hex(), "index": r[1]}}, True)
+    cov["volume_sign_verify"] = total
+    cov["evaluations"] = cov.get("evaluations", 0) + total
+    cov["distinct_nontrivial"] = cov.get("distinct_nontrivial", 0) + total
+
+
 def extra(rep, cov, tier, rng):
+    volume(rep, cov, tier, rng)
     n = 0
     hist = {}
     samples = []
